@@ -23,6 +23,8 @@ ASSUMPTIONS = [
     'TCP reliable; close()/EOF are delivered in order after pending octets',
 ]
 REQUIRED_CLASSES = {'all': ['term-midflight', 'term-idle']}
+MAX_PATHS = {'quick': 20000, 'thorough': 100000}
+CASE_SECONDS = {'quick': 240, 'thorough': 3000}
 QUICK_VALIDATE = 6
 
 
@@ -53,8 +55,9 @@ def cases(tier):
     if tier == 'thorough':
         for pt in ('0', '2', '3', '5', '7', '8', '10'):
             out.append(dict(na=1, nb=0, kseg=1, ev='termA', dev=1, late='B', rx='msg', pts=pt))
-        out.append(dict(na=1, nb=1, kseg=2, ev='termA', dev=1))
-        out.append(dict(na=1, nb=1, kseg=2, ev='termAB', dev=1))
+        for pt in ('0', '3', '6', '10'):
+            out.append(dict(na=1, nb=1, kseg=2, ev='termA', dev=1, pts=pt))
+            out.append(dict(na=1, nb=1, kseg=2, ev='termAB', dev=1, pts=pt))
     return out
 
 
@@ -76,7 +79,7 @@ def harness(case, tier):
     for i in range(case['nb']):
         sent['B'].append(queue_bundle(c, w, 'B', i, case['kseg']))
     start = w.steps
-    w.run(600, choose_budget=0 if case.get('late') else case['dev'], until=lambda: w.steps - start >= when)
+    w.run(600, choose_budget=0 if (case.get('late') or case.get('pts')) else case['dev'], until=lambda: w.steps - start >= when)
     midflight = not (w.a.is_sess_idle() and w.b.is_sess_idle())
 
     # the reason code is the caller's (D-Bus type y): assigned, unassigned and private-use values
